@@ -90,7 +90,7 @@ theorem finTmpl_eq (isFn : Nat → Bool) (gs g₂ : GS) (fname : String) (ps : L
 theorem keepFns_fin (isFn : Nat → Bool) (gs g₂ : GS) (fname : String) (ps : List String) (b : List Instr)
     (hk : KeepFns (gsAlloc isFn gs fname ps) g₂) : KeepFns gs (gsFin g₂ gs.fns.length b) := by
   have hl : gs.fns.length + 1 ≤ g₂.fns.length := by have := hk.len; simpa [gsAlloc] using this
-  refine ⟨by simp [gsFin]; omega, fun t ht => ?_, hk.live, hk.loops, hk.loopstack⟩
+  refine ⟨by simp [gsFin]; omega, fun t ht => ?_, hk.live, hk.loopsLen, hk.loopsGet, hk.loopstack⟩
   simp only [gsFin, List.getD_eq_getElem?_getD]
   rw [List.getElem?_set_ne (by omega), ← List.getD_eq_getElem?_getD, hk.fns t (by simp [gsAlloc]; omega)]
   simp only [gsAlloc, List.getD_eq_getElem?_getD, List.getElem?_append_left ht]
@@ -126,12 +126,28 @@ theorem bodyCtx_funcname (c : Ctx) (gs : GS) (name : String) (ps : List String) 
 theorem anonCtx_funcname (c : Ctx) (gs : GS) : FnameOk "" (anonCtx c gs) := Or.inr (Or.inr ⟨gs.fns.length, rfl⟩)
 
 /-- what the totality statements give -/
-abbrev TotF (fnOk : Bool) (gs gs' : GS) : Prop := KeepFns gs gs' ∧ (fnOk = false → gs' = gs)
+abbrev TotF (fnOk : Bool) (gs gs' : GS) : Prop := KeepFns gs gs' ∧ (fnOk = false → gs'.fns = gs.fns)
 
 theorem TotF.refl (fnOk : Bool) (gs : GS) : TotF fnOk gs gs := ⟨KeepFns.refl gs, fun _ => rfl⟩
 
 theorem TotF.trans {fnOk : Bool} {a b c : GS} (h₁ : TotF fnOk a b) (h₂ : TotF fnOk b c) : TotF fnOk a c :=
   ⟨h₁.1.trans h₂.1, fun h => by rw [h₂.2 h, h₁.2 h]⟩
+
+/-- a whole `for`: the record is pushed, the parts only append, the record is completed and popped -/
+theorem KeepFns.for_ {gs g5 : GS} {c : Ctx} {label : Option String} {brk cont : Int} (h : KeepFns (forGs gs c label) g5) :
+    KeepFns gs (forDone g5 gs.loops.length brk cont) := by
+  have hl := h.loopsLen
+  simp only [forGs, List.length_append, List.length_cons, List.length_nil] at hl
+  refine ⟨h.len, h.fns, h.live, ?_, fun id hid => ?_, ?_⟩
+  · show gs.loops.length ≤ (g5.loops.set _ _).length
+    simp only [List.length_set]; omega
+  · show (g5.loops.set gs.loops.length _).getD id {} = _
+    have hne : gs.loops.length ≠ id := by omega
+    rw [List.getD_eq_getElem?_getD, List.getElem?_set_ne hne, ← List.getD_eq_getElem?_getD,
+      h.loopsGet id (by simp [forGs]; omega)]
+    simp only [forGs, List.getD_eq_getElem?_getD, List.getElem?_append_left hid]
+  · show g5.loopstack.drop 1 = gs.loopstack
+    rw [h.loopstack]; rfl
 
 mutual
 theorem compile_total_Ff : ∀ (fnOk : Bool) (self : String) (e : Expr), Ff fnOk self e = true → ∀ isFn c gs,
@@ -174,6 +190,79 @@ theorem compile_total_Ff : ∀ (fnOk : Bool) (self : String) (e : Expr), Ff fnOk
     rw [compile]
     simp only [g_bind_ok, g_pure_ok]
     exact ⟨_, _, hd, _, _, has, rfl⟩
+  | fnOk, self, .and_ es, he, isFn, c, gs, hfn => by
+    rw [Ff] at he
+    obtain ⟨cs, g1, hcs, hne, hk⟩ := compileSC_total_Ff fnOk self es he isFn c gs hfn
+    refine ⟨asmSC false cs, c.tail, g1, ?_, asmSC_ne_nil false cs hne, hk⟩
+    rw [compile]
+    simp only [g_bind_ok, g_pure_ok]
+    exact ⟨_, _, hcs, rfl⟩
+  | fnOk, self, .or_ es, he, isFn, c, gs, hfn => by
+    rw [Ff] at he
+    obtain ⟨cs, g1, hcs, hne, hk⟩ := compileSC_total_Ff fnOk self es he isFn c gs hfn
+    refine ⟨asmSC true cs, c.tail, g1, ?_, asmSC_ne_nil true cs hne, hk⟩
+    rw [compile]
+    simp only [g_bind_ok, g_pure_ok]
+    exact ⟨_, _, hcs, rfl⟩
+  | fnOk, self, .newScope es, he, isFn, c, gs, hfn => by
+    rw [Ff] at he
+    simp only [Bool.and_eq_true, Bool.not_eq_true', List.isEmpty_eq_false_iff] at he
+    obtain ⟨code, t, g1, h1, _, hk⟩ := compileNewScope_total_Ff fnOk self es he.1 he.2 isFn { c with scopes := c.scopes + 1 }
+      c.tail gs hfn
+    refine ⟨[.addScope] ++ code ++ [.removeScope], t, g1, ?_, by simp, hk⟩
+    cases es with
+    | nil => exact absurd rfl he.1
+    | cons e es =>
+      rw [compile]
+      · simp only [g_bind_ok, g_pure_ok]
+        exact ⟨_, _, h1, rfl⟩
+      · intro hh; cases hh
+  | fnOk, self, .let_ seq bs body, he, isFn, c, gs, hfn => by
+    rw [Ff] at he
+    simp only [Bool.and_eq_true, Bool.not_eq_true', List.isEmpty_eq_false_iff] at he
+    obtain ⟨⟨⟨_, hbody⟩, hbs⟩, hbl⟩ := he
+    obtain ⟨rhs, t1, g1, h1, hk1⟩ := compileBinds_total_Ff fnOk self bs hbs isFn { c with scopes := c.scopes + 1, tail := false }
+      seq gs hfn
+    obtain ⟨b, t2, g2, h2, _, hk2⟩ := compileBegin_total_Ff fnOk self body hbody hbl isFn { c with scopes := c.scopes + 1 } g1 hfn
+    refine ⟨[.addScope] ++ rhs ++ (if seq then [] else (bs.map (fun p => Instr.popStackPutEnv p.1)).reverse)
+      ++ b ++ [.removeScope], t2, g2, ?_, by simp, hk1.trans hk2⟩
+    rw [compile]
+    simp only [g_bind_ok, g_pure_ok]
+    exact ⟨_, _, h1, _, _, h2, rfl⟩
+  | fnOk, self, .arr es, he, isFn, c, gs, hfn => by
+    rw [Ff] at he
+    obtain ⟨code, t, g1, h1, hk⟩ := compileAll_total_Ff fnOk self es he isFn { c with tail := false } gs hfn
+    refine ⟨code ++ [.callArr es.length], c.tail, g1, ?_, by simp, hk⟩
+    rw [compile]
+    simp only [g_bind_ok, g_pure_ok]
+    exact ⟨_, _, h1, rfl⟩
+  | fnOk, self, .for_ label init test incr body, he, isFn, c, gs, hfn => by
+    rw [Ff] at he
+    simp only [Bool.and_eq_true] at he
+    obtain ⟨⟨⟨hi, ht⟩, hs⟩, hb⟩ := he
+    obtain ⟨b, tb, g2, h2, hk2⟩ := compileBeginAny_total_Ff fnOk self body hb isFn { c with tail := false, scopes := c.scopes + 1 }
+      (forGs gs c label) hfn
+    obtain ⟨i, ti, g3, h3, _, hk3⟩ := compile_total_Ff fnOk self init hi isFn { c with tail := false, scopes := c.scopes + 1 } g2 hfn
+    obtain ⟨t, tt, g4, h4, _, hk4⟩ := compile_total_Ff fnOk self test ht isFn { c with tail := false, scopes := c.scopes + 1 } g3 hfn
+    obtain ⟨s, ts, g5, h5, _, hk5⟩ := compile_total_Ff fnOk self incr hs isFn { c with tail := false, scopes := c.scopes + 1 } g4 hfn
+    refine ⟨forCode gs.loops.length i t s b, c.tail,
+      forDone g5 gs.loops.length
+        (asmFor gs.loops.length (i ++ [.popUntilMark gs.loops.length]) t
+          (s ++ [.popUntilMark gs.loops.length]) (b ++ [.popUntilMark gs.loops.length])).2.1
+        (asmFor gs.loops.length (i ++ [.popUntilMark gs.loops.length]) t
+          (s ++ [.popUntilMark gs.loops.length]) (b ++ [.popUntilMark gs.loops.length])).2.2,
+      ?_, by simp [forCode, asmFor], ?_, ?_⟩
+    · rw [compile_for_eq, h2]
+      simp only
+      rw [h3]
+      simp only
+      rw [h4]
+      simp only
+      rw [h5]
+    · exact KeepFns.for_ (((hk2.1.trans hk3.1).trans hk4.1).trans hk5.1)
+    · intro h
+      show g5.fns = gs.fns
+      rw [hk5.2 h, hk4.2 h, hk3.2 h, hk2.2 h]; rfl
   | fnOk, self, .call f args, he, isFn, c, gs, hfn => by
     cases f with
     | sym h =>
@@ -205,8 +294,6 @@ theorem compile_total_Ff : ∀ (fnOk : Bool) (self : String) (e : Expr), Ff fnOk
       (gsAlloc isFn gs name ps) (bodyCtx_funcname c gs name ps body)
     exact ⟨_, _, _, compile_defn_eq isFn c name ps body gs g2 b tl hne hb, by simp,
       keepFns_fin isFn gs g2 _ ps b hk2.1, fun h => by rw [hfnok] at h; cases h⟩
-  | _, _, .and_ _, he, _, _, _, _ | _, _, .or_ _, he, _, _, _, _ | _, _, .let_ _ _ _, he, _, _, _, _
-  | _, _, .newScope _, he, _, _, _, _ | _, _, .arr _, he, _, _, _, _ | _, _, .for_ _ _ _ _ _, he, _, _, _, _
   | _, _, .break_ _, he, _, _, _, _ | _, _, .continue_ _, he, _, _, _, _
   | _, _, .assign _ _, he, _, _, _, _ | _, _, .bad _, he, _, _, _, _ => by
     simp [Ff] at he
@@ -229,6 +316,84 @@ theorem compileBegin_total_Ff : ∀ (fnOk : Bool) (self : String) (es : List Exp
     · simp only [g_bind_ok, g_pure_ok]
       exact ⟨_, _, ha, _, _, hb, rfl⟩
     · intro hh; cases hh
+/-- a statement list that may be empty (the body of a `for`) -/
+theorem compileBeginAny_total_Ff : ∀ (fnOk : Bool) (self : String) (es : List Expr), FfList fnOk self es = true →
+    ∀ isFn c gs, FnameOk self c →
+    ∃ code t gs', (compileBegin isFn c es).run gs = .ok ((code, t), gs') ∧ TotF fnOk gs gs'
+  | fnOk, _, [], _, isFn, c, gs, _ => ⟨[], false, gs, by rw [compileBegin]; rfl, TotF.refl _ _⟩
+  | fnOk, self, e :: es, he, isFn, c, gs, hfn => by
+    obtain ⟨code, t, g1, h1, _, hk⟩ := compileBegin_total_Ff fnOk self (e :: es) (by simp) he isFn c gs hfn
+    exact ⟨code, t, g1, h1, hk⟩
+theorem compileSC_total_Ff : ∀ (fnOk : Bool) (self : String) (es : List Expr), FfList fnOk self es = true → ∀ isFn c gs,
+    FnameOk self c → ∃ cs gs', (compileSC isFn c es).run gs = .ok (cs, gs') ∧ (∀ x ∈ cs, x ≠ []) ∧ TotF fnOk gs gs'
+  | fnOk, _, [], _, isFn, c, gs, hfn => ⟨[], gs, by rw [compileSC]; rfl, by simp, TotF.refl _ _⟩
+  | fnOk, self, [e], he, isFn, c, gs, hfn => by
+    rw [FfList] at he
+    simp only [Bool.and_eq_true] at he
+    obtain ⟨a, t, g1, ha, hane, hk⟩ := compile_total_Ff fnOk self e he.1 isFn c gs hfn
+    refine ⟨[a], g1, ?_, by simpa using hane, hk⟩
+    rw [compileSC]
+    simp only [g_bind_ok, g_pure_ok]
+    exact ⟨_, _, ha, rfl⟩
+  | fnOk, self, e :: e' :: es, he, isFn, c, gs, hfn => by
+    rw [FfList] at he
+    simp only [Bool.and_eq_true] at he
+    obtain ⟨b, g1, hb, hbne, hk1⟩ := compileSC_total_Ff fnOk self (e' :: es) he.2 isFn c gs hfn
+    obtain ⟨a, t, g2, ha, hane, hk2⟩ := compile_total_Ff fnOk self e he.1 isFn { c with tail := false } g1 hfn
+    refine ⟨a :: b, g2, ?_, ?_, hk1.trans hk2⟩
+    · rw [compileSC]
+      · simp only [g_bind_ok, g_pure_ok]
+        exact ⟨_, _, hb, _, _, ha, rfl⟩
+      · intro hh; cases hh
+    · intro x hx
+      rcases List.mem_cons.mp hx with rfl | hx
+      · exact hane
+      · exact hbne x hx
+theorem compileNewScope_total_Ff : ∀ (fnOk : Bool) (self : String) (es : List Expr), es ≠ [] → FfList fnOk self es = true →
+    ∀ isFn c oldtail gs, FnameOk self c →
+    ∃ code t gs', (compileNewScope isFn c oldtail es).run gs = .ok ((code, t), gs') ∧ code ≠ [] ∧ TotF fnOk gs gs'
+  | _, _, [], hne, _, _, _, _, _, _ => absurd rfl hne
+  | fnOk, self, [e], _, he, isFn, c, oldtail, gs, hfn => by
+    rw [FfList] at he
+    simp only [Bool.and_eq_true] at he
+    rw [compileNewScope]
+    exact compile_total_Ff fnOk self e he.1 isFn _ gs hfn
+  | fnOk, self, e :: e' :: es, _, he, isFn, c, oldtail, gs, hfn => by
+    rw [FfList] at he
+    simp only [Bool.and_eq_true] at he
+    obtain ⟨a, ta, g1, ha, hane, hk1⟩ := compile_total_Ff fnOk self e he.1 isFn { c with tail := false } gs hfn
+    obtain ⟨b, tb, g2, hb, _, hk2⟩ := compileNewScope_total_Ff fnOk self (e' :: es) (by simp) he.2 isFn c oldtail g1 hfn
+    refine ⟨a ++ [.pop] ++ b, tb, g2, ?_, by simp, hk1.trans hk2⟩
+    rw [compileNewScope]
+    · simp only [g_bind_ok, g_pure_ok]
+      exact ⟨_, _, ha, _, _, hb, rfl⟩
+    · intro hh; cases hh
+theorem compileBinds_total_Ff : ∀ (fnOk : Bool) (self : String) (bs : List (String × Expr)), FfBinds fnOk self bs = true →
+    ∀ isFn c seq gs, FnameOk self c →
+    ∃ code t gs', (compileBinds isFn c seq bs).run gs = .ok ((code, t), gs') ∧ TotF fnOk gs gs'
+  | fnOk, _, [], _, isFn, c, seq, gs, hfn => ⟨[], c.tail, gs, by rw [compileBinds]; rfl, TotF.refl _ _⟩
+  | fnOk, self, (x, e) :: bs, he, isFn, c, seq, gs, hfn => by
+    rw [FfBinds] at he
+    simp only [Bool.and_eq_true] at he
+    obtain ⟨a, ta, g1, ha, _, hk1⟩ := compile_total_Ff fnOk self e he.1.2 isFn c gs hfn
+    obtain ⟨b, tb, g2, hb, hk2⟩ := compileBinds_total_Ff fnOk self bs he.2 isFn { c with tail := ta } seq g1 hfn
+    refine ⟨a ++ (if seq then [.popStackPutEnv x] else []) ++ b, tb, g2, ?_, hk1.trans hk2⟩
+    rw [compileBinds]
+    simp only [g_bind_ok, g_pure_ok]
+    exact ⟨_, _, ha, _, _, hb, rfl⟩
+theorem compileAll_total_Ff : ∀ (fnOk : Bool) (self : String) (es : List Expr), FfList fnOk self es = true →
+    ∀ isFn c gs, FnameOk self c →
+    ∃ code t gs', (compileAll isFn c es).run gs = .ok ((code, t), gs') ∧ TotF fnOk gs gs'
+  | fnOk, _, [], _, isFn, c, gs, hfn => ⟨[], c.tail, gs, by rw [compileAll]; rfl, TotF.refl _ _⟩
+  | fnOk, self, e :: es, he, isFn, c, gs, hfn => by
+    rw [FfList] at he
+    simp only [Bool.and_eq_true] at he
+    obtain ⟨a, ta, g1, ha, _, hk1⟩ := compile_total_Ff fnOk self e he.1 isFn c gs hfn
+    obtain ⟨b, tb, g2, hb, hk2⟩ := compileAll_total_Ff fnOk self es he.2 isFn { c with tail := ta } g1 hfn
+    refine ⟨a ++ b, tb, g2, ?_, hk1.trans hk2⟩
+    rw [compileAll]
+    simp only [g_bind_ok, g_pure_ok]
+    exact ⟨_, _, ha, _, _, hb, rfl⟩
 theorem compileArms_total_Ff : ∀ (fnOk : Bool) (self : String) (arms : List (Expr × Expr)), FfArms fnOk self arms = true →
     ∀ isFn c gs, FnameOk self c →
     ∃ as gs', (compileArms isFn c arms).run gs = .ok (as, gs') ∧ TotF fnOk gs gs'
@@ -273,6 +438,47 @@ theorem compileBegin_keep_Ff {fnOk : Bool} {self : String} {es : List Expr} (hne
 theorem compileArms_keep_Ff {fnOk : Bool} {self : String} {arms : List (Expr × Expr)} (he : FfArms fnOk self arms = true)
     {isFn c gs r} (h : (compileArms isFn c arms).run gs = .ok r) (hfn : FnameOk self c) : TotF fnOk gs r.2 := by
   obtain ⟨as, g1, h1, hk⟩ := compileArms_total_Ff fnOk self arms he isFn c gs hfn
+  rw [h1] at h
+  injection h with h
+  subst h
+  exact hk
+
+theorem compileSC_keep_Ff {fnOk : Bool} {self : String} {es : List Expr} (he : FfList fnOk self es = true)
+    {isFn c gs r} (h : (compileSC isFn c es).run gs = .ok r) (hfn : FnameOk self c) : TotF fnOk gs r.2 := by
+  obtain ⟨cs, g1, h1, _, hk⟩ := compileSC_total_Ff fnOk self es he isFn c gs hfn
+  rw [h1] at h
+  injection h with h
+  subst h
+  exact hk
+
+theorem compileNewScope_keep_Ff {fnOk : Bool} {self : String} {es : List Expr} (hne : es ≠ []) (he : FfList fnOk self es = true)
+    {isFn c oldtail gs r} (h : (compileNewScope isFn c oldtail es).run gs = .ok r) (hfn : FnameOk self c) :
+    TotF fnOk gs r.2 := by
+  obtain ⟨code, t, g1, h1, _, hk⟩ := compileNewScope_total_Ff fnOk self es hne he isFn c oldtail gs hfn
+  rw [h1] at h
+  injection h with h
+  subst h
+  exact hk
+
+theorem compileBinds_keep_Ff {fnOk : Bool} {self : String} {bs : List (String × Expr)} (he : FfBinds fnOk self bs = true)
+    {isFn c seq gs r} (h : (compileBinds isFn c seq bs).run gs = .ok r) (hfn : FnameOk self c) : TotF fnOk gs r.2 := by
+  obtain ⟨code, t, g1, h1, hk⟩ := compileBinds_total_Ff fnOk self bs he isFn c seq gs hfn
+  rw [h1] at h
+  injection h with h
+  subst h
+  exact hk
+
+theorem compileAll_keep_Ff {fnOk : Bool} {self : String} {es : List Expr} (he : FfList fnOk self es = true)
+    {isFn c gs r} (h : (compileAll isFn c es).run gs = .ok r) (hfn : FnameOk self c) : TotF fnOk gs r.2 := by
+  obtain ⟨code, t, g1, h1, hk⟩ := compileAll_total_Ff fnOk self es he isFn c gs hfn
+  rw [h1] at h
+  injection h with h
+  subst h
+  exact hk
+
+theorem compileBeginAny_keep_Ff {fnOk : Bool} {self : String} {es : List Expr} (he : FfList fnOk self es = true)
+    {isFn c gs r} (h : (compileBegin isFn c es).run gs = .ok r) (hfn : FnameOk self c) : TotF fnOk gs r.2 := by
+  obtain ⟨code, t, g1, h1, hk⟩ := compileBeginAny_total_Ff fnOk self es he isFn c gs hfn
   rw [h1] at h
   injection h with h
   subst h
